@@ -103,8 +103,10 @@ def select(obs, prop, tier):
 
 
 # ---------------------------------------------------------------- output parsing
+# NB: check names contain spaces for generic impls (`<T<1, 12> as Trait>::f.assertion.1`)
 CHECK_RE = re.compile(
-    r"^Check (\d+): (\S+)\n\s+- Status: (\S+)\n\s+- Description: \"(.*)\"\n(?:\s+- Location: (.*)\n)?", re.M)
+    r"^Check (\d+): (.+)\n\s+- Status: (\S+)\n\s+- Description: \"(.*)\"\n(?:\s+- Location: (.*)\n)?", re.M)
+SUMMARY_RE = re.compile(r"^ \*\* (\d+) of (\d+) failed", re.M)
 
 # Kani inserts overflow checks into stdarch's *wrapping* SIMD intrinsics
 # (paddb/psubb/pmullw ...): spurious for code that uses them for wrapping
@@ -160,6 +162,21 @@ def parse_harness_output(text, allow=None):
         else:  # UNDETERMINED etc.
             res["undecided_checks"].append("%s: %s %s" % (name, status, desc))
     res["covers"] = [covers_sat, covers_total]
+    # cross-check the parse against Kani's own summary: every check must have been seen and
+    # the number of FAILURE blocks must match; a mismatch is a tool/parse problem => undecided
+    sm = SUMMARY_RE.search(text)
+    n_fail_parsed = len(res["failed"]) + len(res["ignored"]) + sum(1 for x in res["undecided_checks"] if not x.startswith("cover "))
+    if sm:
+        k_failed, k_total = int(sm.group(1)), int(sm.group(2))
+        n_noncover = len(checks) - covers_total
+        if k_total != n_noncover or k_failed > n_fail_parsed:
+            res["verdict"] = "undecided"
+            res["reason"] = "result parse mismatch: Kani summary says %d of %d failed, parsed %d checks / %d failures" % (k_failed, k_total, n_noncover, n_fail_parsed)
+            return res
+    if "VERIFICATION:- FAILED" in text and not res["failed"] and not res["ignored"] and not res["undecided_checks"] and "CBMC timed out" not in text:
+        res["verdict"] = "undecided"
+        res["reason"] = "Kani reports FAILED but no failed check was parsed"
+        return res
     done = "VERIFICATION:- " in text
     if "CBMC timed out" in text or "CBMC failed" in text and not checks:
         res["verdict"] = "undecided"
